@@ -84,6 +84,7 @@ static uint32_t g_next_serial = 1;
 static uint32_t g_stamp = 1;   // bumped by the engine before every monitored call
 static long g_live_lib = 0;    // live tracked objects created by the library (and not adopted by the harness)
 static long g_live_harness = 0;
+static bool g_selfmove_poison = false;   // a self move-assignment silently costs the object its value (as for std::vector): the value oracles speak
 static bool g_selfswap_window = false;  // an explicit self-swap is in progress: self move-assignment is legitimate
 static bool g_check_raw_overwrite = true;
 
@@ -285,7 +286,9 @@ struct Tracked : std::conditional<KIND == 0 || KIND == 6 || KIND == 8, DeclaresR
     bool ok = check_live("move-assign(dest)");
     o.check_live("read(move-assign source)");
     if (this == &o) {
-      if (!g_selfswap_window && g_monitor_depth == 0) {
+      if (g_selfmove_poison && g_monitor_depth == 0) {
+        key = -999;
+      } else if (!g_selfswap_window && g_monitor_depth == 0) {
         violation("C02", "ledger.self_move_assign", fmt("%s object #%u move-assigned onto itself", kname(), serial));
         key = -999;  // a type whose self-move is destructive loses its value
       }
